@@ -294,19 +294,19 @@ func alphabet(thorough bool) []ops.Op {
 		{K: "M3"},
 		{K: "M", V: 1}, // a skipped slot: the pillar elected for it misses a momentum
 		{K: "Call", S: "delegate", A: 2, B: 1},
-		{K: "Call", S: "undelegate", A: 0},
 		{K: "Call", S: "stake", A: 1, V: 10, B: 1},
 		{K: "CancelStake0", A: 1},
 		{K: "Call", S: "update-stake", A: 3},
-		{K: "Call", S: "update-pillar", A: 3},
 		{K: "Call", S: "stake-collect", A: 1},
 		{K: "Call", S: "pillar-collect", A: 10},
-		{K: "Call", S: "pillar-collect", A: 0}, // a delegator
 		{K: "Q"},
 		{K: "RevokeP3"},
 	}
 	if thorough {
 		a = append(a,
+			ops.Op{K: "Call", S: "undelegate", A: 0},
+			ops.Op{K: "Call", S: "update-pillar", A: 3},
+			ops.Op{K: "Call", S: "pillar-collect", A: 0},       // a delegator
 			ops.Op{K: "Tx", A: 0, B: 1, T: 0, V: 100000000000}, // 1000 ZNN: changes delegation weights
 			ops.Op{K: "Call", S: "sentinel-collect", A: 5},
 			ops.Op{K: "Call", S: "update-sentinel", A: 3},
